@@ -3,6 +3,7 @@
 package verifh
 
 import (
+	"bytes"
 	"encoding/json"
 	"errors"
 	"fmt"
@@ -10,10 +11,13 @@ import (
 	"sort"
 	"strings"
 	"testing"
+	"unicode"
+	"unicode/utf8"
 
 	"github.com/ory/herodot"
 	"google.golang.org/protobuf/proto"
 
+	cliparse "github.com/ory/keto/cmd/relationtuple"
 	"github.com/ory/keto/internal/relationtuple"
 	"github.com/ory/keto/ketoapi"
 	rts "github.com/ory/keto/proto/ory/keto/relation_tuples/v1alpha2"
@@ -406,8 +410,89 @@ func c18Case(op string, arg string, r *rng) (input, obs string) {
 			rest = hx(p) + " " + o2
 		}
 		return "fs " + hx(s), o1 + " ; " + rest
+	case "pf": // the CLI: keto relation-tuple parse - (a text file of relationships on stdin), JSON output
+		cmd := cliparse.NewParseCmd()
+		var stdout, stderr bytes.Buffer
+		cmd.SetIn(strings.NewReader(arg))
+		cmd.SetOut(&stdout)
+		cmd.SetErr(&stderr)
+		cmd.SetArgs([]string{"-", "--format", "json"})
+		o := outcome(func() (string, error) {
+			if err := cmd.Execute(); err != nil {
+				return "", ketoapi.ErrMalformedInput
+			}
+			var many []*ketoapi.RelationTuple
+			var one ketoapi.RelationTuple
+			b := bytes.TrimSpace(stdout.Bytes())
+			if len(b) > 0 && b[0] == '[' {
+				if err := json.Unmarshal(b, &many); err != nil {
+					return "", err
+				}
+			} else if len(b) > 0 && string(b) != "null" {
+				if err := json.Unmarshal(b, &one); err != nil {
+					return "", err
+				}
+				many = []*ketoapi.RelationTuple{&one}
+			}
+			var parts []string
+			for _, t := range many {
+				parts = append(parts, fmtTuple(t))
+			}
+			return fmt.Sprintf("%d %s", len(many), strings.Join(parts, " ")), nil
+		})
+		return "pf " + hx(arg), o
 	}
 	panic("unknown op " + op)
+}
+
+// text files as the documentation writes them: relationships, blank lines, comments, stray white space, and
+// slashes / comment markers INSIDE relationships
+func genFileText(r *rng) string {
+	var sb strings.Builder
+	n := r.intn(5)
+	for i := 0; i < n; i++ {
+		switch r.intn(10) {
+		case 0:
+			sb.WriteString("// a comment " + genStr(r, 2))
+		case 1:
+			sb.WriteString("")
+		case 2:
+			sb.WriteString("  \t ")
+		case 3: // a relationship with slashes in it
+			sb.WriteString(r.pick([]string{"files:srv//share/readme#viewer@alice", "files:readme#viewer@corp//alice", "n:o#r@(g:eng//backend#member)", "n:o#r@u // trailing", "//n:o#r@u", " //x", "n://o#r@u"}))
+		case 4:
+			sb.WriteString(genTupleText(r))
+		default:
+			tu := genTuple(r, 0, true)
+			pre, post := "", ""
+			if r.chance(1, 4) {
+				pre = r.pick([]string{" ", "\t", "  "})
+			}
+			if r.chance(1, 4) {
+				post = r.pick([]string{" ", "\r", "\t "})
+			}
+			sb.WriteString(pre + tu.String() + post)
+		}
+		if i < n-1 || r.chance(2, 3) {
+			sb.WriteString("\n")
+		}
+	}
+	return asciiWS(sb.String())
+}
+
+// the model trims ASCII white space; keep Unicode white space (U+0085, U+00A0, U+2000.., U+3000) out of the files
+func asciiWS(s string) string {
+	var sb strings.Builder
+	for _, c := range s {
+		if c > 127 && unicode.IsSpace(c) {
+			sb.WriteRune('_')
+		} else if c == utf8.RuneError {
+			sb.WriteRune('?')
+		} else {
+			sb.WriteRune(c)
+		}
+	}
+	return sb.String()
 }
 
 func suiteC18(t *testing.T, cfg cfgT) {
@@ -426,7 +511,44 @@ func suiteC18(t *testing.T, cfg cfgT) {
 
 	for i := 0; i < cfg.n; i++ {
 		switch k := i % 10; k {
-		case 0, 1: // raw text
+		case 1: // a text file through the CLI parser
+			if r.chance(1, 2) {
+				in, obs := c18Case("pf", genFileText(r), r)
+				out.emit(in, obs)
+				out.stat("op.pf")
+				out.stat("pf." + strings.Fields(obs)[0])
+			} else { // round trip: printed relationships, one per line, read back by the CLI
+				var ts []*ketoapi.RelationTuple
+				var lines, toks []string
+				for j := 0; j <= r.intn(4); j++ {
+					tu := genTuple(r, 0, true)
+					// the CLI prints JSON: encoding/json replaces invalid UTF-8, which is the JSON layer, not the file parser;
+					// Unicode white space at a line end would be trimmed by TrimSpace (the model trims ASCII white space)
+					v := func(x string) string { return asciiWS(strings.ToValidUTF8(x, "?")) }
+					tu.Namespace, tu.Object, tu.Relation = v(tu.Namespace), v(tu.Object), v(tu.Relation)
+					if tu.SubjectID != nil {
+						x := v(*tu.SubjectID)
+						tu.SubjectID = &x
+					}
+					if tu.SubjectSet != nil {
+						tu.SubjectSet = &ketoapi.SubjectSet{Namespace: v(tu.SubjectSet.Namespace), Object: v(tu.SubjectSet.Object), Relation: v(tu.SubjectSet.Relation)}
+					}
+					if r.chance(1, 3) {
+						tu.Object = r.pick([]string{"srv//share/readme", "a//b", "x/y", "//lead", "t//"})
+					}
+					if r.chance(1, 4) && tu.SubjectID != nil {
+						sid := r.pick([]string{"corp//alice", "u//", "/u"})
+						tu.SubjectID = &sid
+					}
+					ts = append(ts, tu)
+					lines = append(lines, tu.String())
+					toks = append(toks, fmtTuple(tu))
+				}
+				_, obs := c18Case("pf", strings.Join(lines, "\n")+"\n", r)
+				out.emit(fmt.Sprintf("pfr %d %s", len(ts), strings.Join(toks, " ")), obs)
+				out.stat("op.pfr")
+			}
+		case 0: // raw text
 			s := genTupleText(r)
 			in, obs := c18Case("fs", s, r)
 			out.emit(in, obs)
